@@ -25,6 +25,12 @@ CHECKS = {
  "C08": ("exploration", "bounded-exhaustive + random sequences at the index API with lookup and structure monitors",
          "All valid sequences up to the bound over an 8-key universe containing every shared-prefix shape, each in two flush variants, plus random longer sequences; after every operation every key is looked up and the stored prefixes are read back and checked (sorted, prefix-free, prefix of own key, other entries untouched).",
          "exhaustive only within the stated bound; Update/Remove issued for present keys only", "5 C08"),
+ "C09": ("exploration", "reference-model monitor across bit-size changes + crash-point imaging inside the translation",
+         "Every ordered pair of bit sizes over {8,9,12,15,16,17,20,24} is exercised on generated histories, chains of changes are interleaved with file-size-mismatch opens that must be refused with the specific error types, and every hook point inside a translating OpenStore is imaged (torn variants included) and reopened with old and new bits: a successful open must show every key.",
+         "24-bit sizes only with short histories; a refused open need not leave files untouched", "5 C09"),
+ "C10": ("exploration", "independent legacy-format writer + reference-model monitor + crash-point imaging inside the upgrade",
+         "Legacy stores are produced by the harness' own writer (simulated store life, pending/pre-deleted/leaked records, dangling entries, chunk limits around record sizes), upgraded by OpenStore and compared with the generator's map, fsck'd and used further; every hook point inside the upgrade is imaged and must resume to the same contents.",
+         "legacy formats reconstructed from the upgrade code and fixtures", "5 C10"),
  "C11": ("exploration", "bounded-progress monitor over directory listings, StorageSize and fsck layout across GC cycles",
          "Liveness restated as bounded progress in harness-driven GC cycles: dead files must be released within 4 cycles, low-use files drained within live+4, growth bounded by relocations, and a fixed point reached after which nothing is written.",
          "progress counted in cycles with a Flush between; generous bounds", "5 C11"),
@@ -39,8 +45,6 @@ CHECKS = {
 NOT_YET = {
  "C05": "check under construction (concurrency engine; see DESIGN.md section 5)",
  "C06": "check under construction (concurrency engine; see DESIGN.md section 5)",
- "C09": "check under construction (see DESIGN.md section 5)",
- "C10": "check under construction (see DESIGN.md section 5)",
  "C12": "check under construction (see DESIGN.md section 5)",
  "C14": "check under construction (see DESIGN.md section 5)",
  "C16": "check under construction (see DESIGN.md section 5)",
